@@ -33,8 +33,6 @@ const expensiveBudget = 3
 // the case as a whole stops after this many
 const expensiveBudgetEnum = 5
 
-const rlimitData = 2 // RLIMIT_DATA on linux
-
 const (
 	allocSlack   = 64 << 20 // bytes
 	allocPerByte = 4096
@@ -166,13 +164,18 @@ type callInfo struct {
 	idx     int
 	data    []byte
 	cpu0    atomic.Int64 // process CPU time (ns) when the current call began
-	marker  string       // function name expected on the stack of the goroutine under test
+	alloc0  atomic.Uint64
+	marker  string // function name expected on the stack of the goroutine under test
 }
 
 var curCall atomic.Pointer[callInfo]
 
-func beginCall(ci *callInfo) { ci.cpu0.Store(int64(cpuTime())); curCall.Store(ci) }
-func endCall()               { curCall.Store(nil) }
+func beginCall(ci *callInfo) {
+	ci.cpu0.Store(int64(cpuTime()))
+	ci.alloc0.Store(totalAlloc())
+	curCall.Store(ci)
+}
+func endCall() { curCall.Store(nil) }
 
 func startWatchdog() {
 	go func() {
@@ -186,9 +189,15 @@ func startWatchdog() {
 				buf := make([]byte, 1<<20)
 				n := runtime.Stack(buf, true)
 				site, excerpt := hangSite(string(buf[:n]), ci.marker)
-				writeRec(vrec{T: "v", Case: ci.caseID, Idx: ci.idx, Sig: "cpu-hang/" + site, Fatal: true, Len: len(ci.data), Hex: hexOf(ci.data),
-					What:   fmt.Sprintf("the call consumed %.1fs of CPU time (limit %v) and has not returned; input %d bytes", used.Seconds(), cpuLimit, len(ci.data)),
-					Detail: map[string]any{"stack": excerpt}})
+				sig := friendlySig("cpu-hang/" + site)
+				what := fmt.Sprintf("the call consumed %.1fs of CPU time (limit %v) and has not returned; input %d bytes", used.Seconds(), cpuLimit, len(ci.data))
+				if al := totalAlloc() - ci.alloc0.Load(); al > allocBound(len(ci.data)) && strings.Contains(site, ":reflect.") {
+					// the time goes into a huge allocation: the same defect as an allocation out of proportion
+					sig = friendlySig("alloc-amplification/" + site)
+					what = fmt.Sprintf("the call allocated %d bytes (bound %d) and was still busy with that memory after %.1fs of CPU time; input %d bytes", al, allocBound(len(ci.data)), used.Seconds(), len(ci.data))
+				}
+				writeRec(vrec{T: "v", Case: ci.caseID, Idx: ci.idx, Sig: sig, Fatal: true, Len: len(ci.data), Hex: hexOf(ci.data),
+					What: what, Detail: map[string]any{"stack": excerpt}})
 				os.Exit(7)
 			}
 		}
@@ -225,7 +234,8 @@ func shortFn(f string) string {
 func siteOf(frames []string) string {
 	via := ""
 	for _, f := range frames {
-		if via == "" && strings.HasPrefix(f, "reflect.") && !strings.Contains(f, "unsafe_") && !strings.Contains(f, "reflect.Value.") && !strings.Contains(f, "reflect.(*") {
+		// the reflect function called by the ergo code (the outermost reflect frame below it)
+		if strings.HasPrefix(f, "reflect.") && !strings.Contains(f, "unsafe_") && !strings.Contains(f, "reflect.Value.") && !strings.Contains(f, "reflect.(*") {
 			via = f
 		}
 		if strings.HasPrefix(f, "ergo.services/ergo/") {
@@ -244,14 +254,19 @@ func siteOf(frames []string) string {
 
 // friendlySig gives the known root causes a stable, readable signature
 func friendlySig(sig string) string {
+	// array fdec closure of decodeType: time or garbage spent in its loop without input being consumed
+	if sig == "cpu-hang/edf.decodeType.func3" || sig == "alloc-amplification/edf.decodeType.func3" {
+		return "zero-size-array-elements-loop"
+	}
 	if !strings.HasPrefix(sig, "alloc-amplification/") {
 		return sig
 	}
 	site := strings.TrimPrefix(sig, "alloc-amplification/")
 	switch {
-	case strings.Contains(site, "registerType") && strings.Contains(site, "makemap"), strings.Contains(site, "registerType") && strings.Contains(site, "MakeMapWithSize"):
+	case strings.Contains(site, "registerType") && (strings.Contains(site, "makemap") || strings.Contains(site, "MakeMapWithSize")):
 		return "alloc-by-declared-size/registered-map"
-	case (strings.HasPrefix(site, "edf.Decode:") || strings.HasPrefix(site, "edf.decodeAny:")) && strings.HasSuffix(site, "reflect.New"):
+	case strings.HasPrefix(site, "edf.") && strings.HasSuffix(site, ":reflect.New"):
+		// reflect.New of a decoded type is large only for array types: the length comes from the type descriptor
 		return "alloc-by-declared-size/array-type-descriptor"
 	case strings.HasPrefix(site, "lib.Decompress"):
 		return "alloc-by-declared-size/decompress"
@@ -496,20 +511,16 @@ func childMain(specPath string) {
 		}
 		wg.Wait()
 		gate.Done()
-		// memory cap: RLIMIT_DATA (private writable mappings: the Go heap, stacks, runtime metadata; address space
-		// that is only reserved does not count) = what the process has now + the allowance
+		// memory cap: RLIMIT_AS = the address space mapped now + the allowance. (RLIMIT_DATA is not reliable
+		// for a Go process: mapping the heap over address space that was reserved before passes the check.)
 		cur := uint64(0)
-		if b, err := os.ReadFile("/proc/self/status"); err == nil {
-			for _, l := range strings.Split(string(b), "\n") {
-				if strings.HasPrefix(l, "VmData:") {
-					var kb uint64
-					fmt.Sscan(strings.TrimSpace(strings.TrimPrefix(l, "VmData:")), &kb)
-					cur = kb * 1024
-				}
-			}
+		if b, err := os.ReadFile("/proc/self/statm"); err == nil {
+			var pages uint64
+			fmt.Sscan(string(b), &pages)
+			cur = pages * uint64(os.Getpagesize())
 		}
 		lim := syscall.Rlimit{Cur: cur + spec.MemKB*1024, Max: cur + spec.MemKB*1024}
-		if err := syscall.Setrlimit(rlimitData, &lim); err != nil {
+		if err := syscall.Setrlimit(syscall.RLIMIT_AS, &lim); err != nil {
 			fmt.Fprintln(os.Stderr, "child: setrlimit:", err)
 			os.Exit(4)
 		}
